@@ -25,6 +25,7 @@ EXPLANATION = (
     "decide what the C-STORE sub-operation itself does."
     " Third session: (classification) the tally segment of _get_scp / _move_scp is evaluated with the checker's interpreter for one status of every category of the storage table, an unknown status and a raising send: Success counts as completed, Warning as warning, everything else as failed, and remaining drops by one each time; (status-known) borrowed from C28's docs-agreement; (final-status) the handler-yields-Success branch is enumerated over the counter cases."
     ' Fifth round: the completion test of a sub-operation loop dominates every send of the iteration; the announced count is checked at its 16-bit boundary; the failed-instance list is modelled (FailedList) under any local name.'
+    " Sixth round: (counts-delivered) borrows C20's response-direction; (outcome-attributed) borrows C24's evaluation of _handle_no_response."
 )
 
 FIELDS = {
